@@ -374,3 +374,9 @@ Proof. intros I H. apply splits_deg in I. lia. Qed.
 
 Lemma lt_S_le a b : a < S b <-> a <= b.
 Proof. lia. Qed.
+
+(** the enumeration order is that of itertools.product(range(2), range(3)) *)
+Example splits_order :
+  map fst (splits [1; 2]) = [[0; 0]; [0; 1]; [0; 2]; [1; 0]; [1; 1]; [1; 2]]
+  /\ map snd (splits [1; 2]) = [[1; 2]; [1; 1]; [1; 0]; [0; 2]; [0; 1]; [0; 0]].
+Proof. split; reflexivity. Qed.
